@@ -19,7 +19,7 @@ CHILD = {
     'ListComp': '[c for c in d]', 'SetComp': '{c for c in d}', 'GeneratorExp': '(c for c in d)', 'DictComp': '{c: d for c in e}',
     'NamedExpr': 'c := d', 'Yield': 'yield c', 'Yield0': 'yield', 'YieldFrom': 'yield from c', 'Await': 'await c',
     'Lambda': 'lambda: c', 'LambdaArgs': 'lambda x, *y: c', 'IfExp': 'c if d else e', 'Or': 'c or d', 'And': 'c and d', 'Not': 'not c',
-    'Compare': 'c < d', 'In': 'c in d', 'NotIn': 'c not in d', 'Is': 'c is d', 'IsNot': 'c is not d', 'Chain': 'c < d < e',
+    'Compare': 'c < d', 'NotEq': 'c != d', 'In': 'c in d', 'NotIn': 'c not in d', 'Is': 'c is d', 'IsNot': 'c is not d', 'Chain': 'c < d < e',
     'BitOr': 'c | d', 'BitXor': 'c ^ d', 'BitAnd': 'c & d', 'LShift': 'c << d', 'RShift': 'c >> d',
     'Add': 'c + d', 'Sub': 'c - d', 'Mult': 'c * d', 'Div': 'c / d', 'MatMult': 'c @ d', 'Mod': 'c % d', 'FloorDiv': 'c // d',
     'USub': '-c', 'UAdd': '+c', 'Invert': '~c', 'Pow': 'c ** d', 'NegInt': '-1',
@@ -198,6 +198,24 @@ def eval_cell(cell):
         if kind == 'slot':
             template, cname = payload
             tree = build_program(template, CHILD[cname], cname)
+        elif kind == 'fslot':
+            # the slot with its child as the expression of an f-string replacement field: `t = <expr>` becomes t = f'{<expr>}', f'{<expr>!r}', f'{<expr>:>{w}}'
+            template, cname, wrapper = payload
+            tree = build_program(template, CHILD[cname], cname)
+            if tree is not None:
+                assign = tree.body[0].body[0]
+                if not isinstance(assign, ast.Assign):
+                    tree = None
+                else:
+                    spec = None
+                    if wrapper == 'spec':
+                        spec = ast.JoinedStr(values=[ast.Constant(value='>'), ast.FormattedValue(value=ast.Name(id='w', ctx=ast.Load()), conversion=-1, format_spec=None)])
+                    fv = ast.FormattedValue(value=assign.value, conversion=114 if wrapper == 'conv' else -1, format_spec=spec)
+                    values = [fv] if wrapper != 'text' else [ast.Constant(value='a '), fv, ast.Constant(value=' b')]
+                    assign.value = ast.JoinedStr(values=values)
+                    ast.fix_missing_locations(tree)
+                    if not representable(tree):
+                        return (label, 'skip', 'not representable')
         else:
             try:
                 tree = ast.parse(payload)
@@ -245,9 +263,10 @@ def eval_cell(cell):
 
 
 def run_cells(model, cells, jobs=None):
-    # Single process by default: the interpreter recurses deeply, CPython 3.12 maps and unmaps frame-stack chunks all the time, and
-    # in this sandbox that makes several worker processes slower than one (measured: 1 job 12 s, 4 jobs 15 s, 16 jobs 21 s for 2526 cells).
-    jobs = jobs or int(os.environ.get('PMSTATIC_JOBS', '1'))
+    # Worker processes forked from the checker (whose interpreter thread already has its large first frame, see pmstatic.fatstack); a variant
+    # run by the battery is itself a pool worker and evaluates its cells in process.
+    if jobs is None:
+        jobs = int(os.environ.get('PMSTATIC_JOBS', '0')) or (1 if multiprocessing.current_process().daemon else min(8, os.cpu_count() or 1))
     if len(cells) < 40 or jobs <= 1:
         _init(model.root, model.overlay)
         return [eval_cell(c) for c in cells]
@@ -417,6 +436,7 @@ QUICK_CHILD = ['Name', 'Int', 'Str', 'Tuple', 'Tuple1', 'Tuple0', 'StarTuple', '
                'Compare', 'NotIn', 'BitOr', 'BitAnd', 'LShift', 'Add', 'Mult', 'USub', 'Pow', 'NegInt', 'Call', 'Attribute', 'Starred', 'JoinedStr', 'Slice', 'DictComp', 'Set']
 OPERATOR_SLOTS = ['BinOp', 'BoolOp', 'Compare', 'Not.', 'USub.', 'Invert.', 'Await.', 'IfExp', 'In.', 'IsNot.', 'Starred', 'Call.star', 'Dict.starstar', 'Attribute.value', 'Subscript.value', 'Call.func']
 OPERATOR_CHILD = ['BitXor', 'RShift', 'Sub', 'Div', 'Mod', 'FloorDiv', 'MatMult', 'UAdd', 'Invert', 'In', 'Is', 'IsNot', 'Chain', 'Float']
+FIELD_CHILD = ['Name', 'Lambda', 'LambdaArgs', 'IfExp', 'NamedExpr', 'Dict', 'Set', 'DictComp', 'SetComp', 'Str', 'JoinedStr', 'NotEq', 'Compare', 'Yield', 'Await', 'Tuple', 'StarTuple', 'GeneratorExp', 'Not', 'NegInt']
 QUICK_STMTS = ['Assign', 'Expr', 'ExprStr', 'Pass', 'Import', 'Global', 'Return', 'YieldStmt', 'For', 'WhileElse', 'IfElif', 'With', 'TryFull', 'FunctionDef', 'ClassDef', 'Decorated', 'Match', 'NestedIf', 'TypeAlias']
 
 
@@ -433,6 +453,13 @@ def all_cells(tier):
             children += [c for c in OPERATOR_CHILD if c not in children]
         for cname in children:
             cells.append(('slot', 'slot %s <- %s' % (sname, cname), (tpl, cname)))
+    # the same table inside an f-string replacement field (the field printer is a printer of its own: `:` `!` `=` `{` and quotes mean something there)
+    for sname, tpl in SLOTS.items():
+        if not tpl.startswith('t = '):
+            continue
+        for cname in (list(CHILD) if not quick else FIELD_CHILD):
+            for wrapper in (('plain', 'conv', 'spec', 'text') if not quick or cname in ('Lambda', 'IfExp', 'NamedExpr', 'Dict') else ('plain',)):
+                cells.append(('fslot', 'slot f-string field (%s) <- %s <- %s' % (wrapper, sname, cname), (tpl, cname, wrapper)))
     stm = {k: v for k, v in STMTS.items() if v and (not quick or k in QUICK_STMTS)}
     for (a, sa), (b, sb_) in itertools.product(stm.items(), repeat=2):
         cells.append(('prog', 'lay module: %s ; %s' % (a, b), sa + '\n' + sb_ + '\n'))
